@@ -22,8 +22,51 @@ C1 = np.array([1.0, 0.5])
 C2 = np.array([-0.5, 1.0])
 C3 = np.array([1.0, -1.0])
 
-RO_DECL = ['lin', 'bnd', 'soc', 'ipc', 'exp', 'rown', 'rdef', 'late', 'adapt', 'pow', 'rsoc', 'ent']
-DRO_DECL = ['lin', 'bnd', 'soc', 'ipc', 'exp', 'rob', 'ecn', 'late', 'evt', 'pow', 'rsoc', 'ent', 'lsupp', 'lexp', 'lprob']
+RO_DECL = ['lin', 'bnd', 'soc', 'ipc', 'exp', 'rown', 'rdef', 'late', 'adapt', 'pow', 'rsoc', 'ent', 'refor']
+DRO_DECL = ['lin', 'bnd', 'soc', 'ipc', 'exp', 'rob', 'ecn', 'late', 'evt', 'pow', 'rsoc', 'ent', 'lsupp', 'lsuppb',
+            'lsuppw', 'lexp', 'lexpe', 'lprob', 'lprob0', 'reford']
+# RE-DEFINITIONS: a declaration that replaces an earlier definition.  The declared model holds, per slot, the LAST
+# definition of the history; the canonical fresh build writes that final definition once, directly.
+REDEF = {'dro': {'lsupp': ('supp0',), 'lsuppb': ('supp0',), 'lsuppw': ('supp0', 'supp1'), 'lprob': ('prob',),
+                 'lprob0': ('prob',), 'reford': ('robset',)},
+         'ro': {'refor': ('rownset',)}}
+REQUIRES = {'refor': 'rown', 'reford': 'rob'}      # 'forall again' needs the stated constraint
+
+
+def final_slots(fe, declared):
+    slots = {}
+    for name in declared:
+        for slot in REDEF[fe].get(name, ()):
+            slots[slot] = name
+    return slots
+
+
+def _supp(rso, z, ident, scen):
+    if ident == 'lsupp':
+        return [rso.norm(z, 1) <= 1.25, z <= 0.75]
+    if ident == 'lsuppb':
+        return [z <= np.array([0.5, 1.25]), z >= np.array([-1.25, -0.5])]
+    if ident == 'lsuppw':
+        return [rso.norm(z, 2) <= 0.875, z[0] - z[1] <= 1.0]
+    return [z <= 1, z >= -1] if scen == 0 else [z <= 0.5, z >= -0.5]
+
+
+def _prob(p, ident):
+    if ident == 'lprob':
+        return [p <= np.array([0.5, 0.875])]
+    if ident == 'lprob0':
+        return []
+    return [p <= np.array([0.625, 0.75])]
+
+
+def _rownset(rso, z, ident):
+    if ident == 'refor':
+        return [rso.norm(z, 2) <= 0.75, z[0] <= 0.25]
+    return [rso.norm(z, 1) <= 0.5]
+
+
+def _robset(z):
+    return [z <= np.array([0.5, 0.75]), z >= np.array([-0.25, -0.5])]
 OPS = ['P', 'D', 'S', 'Sd', 'Q', 'G']
 
 
@@ -31,7 +74,7 @@ class Env(object):
     pass
 
 
-def base(fe, late_first=False):
+def base(fe, late_first=False, slots=None):
     """Base model.  late_first: canonical builds declare the 'late' variable together with the other variables."""
     R = C.R
     rso = R['rso']
@@ -44,6 +87,8 @@ def base(fe, late_first=False):
     e.solved = None          # (value, x) recorded at the last solve
     e.last_primal = None
     e.w = None
+    e.slots = dict(slots or {})      # canonical builds: final definition of every re-definable slot
+    e.canonical = slots is not None
     if fe == 'ro':
         m = R['ro'].Model()
         e.m = m
@@ -64,10 +109,10 @@ def base(fe, late_first=False):
             e.w = m.dvar()
         e.z = m.rvar(2)
         f = m.ambiguity()
-        f[0].suppset(e.z <= 1, e.z >= -1)
-        f[1].suppset(e.z <= 0.5, e.z >= -0.5)
+        f[0].suppset(*_supp(rso, e.z, e.slots.get('supp0'), 0))
+        f[1].suppset(*_supp(rso, e.z, e.slots.get('supp1'), 1))
         f.exptset(rso.E(e.z) <= 0.25, rso.E(e.z) >= -0.25)
-        f.probset(m.p <= np.array([0.625, 0.75]))
+        f.probset(*_prob(m.p, e.slots.get('prob')))
         e.f = f
         m.st(e.x >= 0)
         m.st(e.v >= 0)
@@ -80,7 +125,9 @@ def declare(e, name):
     """Apply one declaration: expressions are created *now* (after whatever happened before)."""
     rso = C.R['rso']
     m, x, z = e.m, e.x, e.z
-    if name == 'lin':
+    if e.canonical and name in REDEF[e.fe]:
+        pass                # the final definition was written directly (base / the stated constraint)
+    elif name == 'lin':
         m.st(2 * x[0] >= 2.5)
     elif name == 'bnd':
         m.st(x[1] >= 0.75)
@@ -98,7 +145,9 @@ def declare(e, name):
         m.st(rso.entropy(x[11:13]) >= 0.625, x[11:13] >= 0.125)
     elif e.fe == 'ro':
         if name == 'rown':
-            m.st((x[6] >= 1 + z @ C1).forall(rso.norm(z, 1) <= 0.5))
+            e.rown_c = m.st((x[6] >= 1 + z @ C1).forall(*_rownset(rso, z, e.slots.get('rownset'))))
+        elif name == 'refor':       # forall again on the stated constraint
+            e.rown_c.forall(*_rownset(rso, z, 'refor'))
         elif name == 'rdef':
             m.st(x[7] >= 1 + z @ C2)
         elif name == 'late':
@@ -114,7 +163,12 @@ def declare(e, name):
             raise ValueError(name)
     else:
         if name == 'rob':
-            m.st(x[6] >= 1 + z @ C1)
+            e.rob_c = (x[6] >= 1 + z @ C1)
+            if e.slots.get('robset'):
+                e.rob_c = e.rob_c.forall(_robset(z))
+            m.st(e.rob_c)
+        elif name == 'reford':      # forall again (support constraints) on the stated constraint
+            e.rob_c.forall(_robset(z))
         elif name == 'ecn':
             m.st(rso.E(rso.maxof(z @ C2, 0.5 - z @ C2)) + 1 <= x[7])
         elif name == 'late':
@@ -124,12 +178,16 @@ def declare(e, name):
         elif name == 'evt':
             e.v.adapt(0)
             m.st(e.v >= 1 + z @ C3)
-        elif name == 'lsupp':       # the support of scenario 0 is re-defined (tighter, different constraint classes)
-            e.f[0].suppset(rso.norm(z, 1) <= 1.25, z <= 0.75)
+        elif name in ('lsupp', 'lsuppb'):     # the support of scenario 0 is re-defined (event level)
+            e.f[0].suppset(*_supp(rso, z, name, 0))
+        elif name == 'lsuppw':      # whole-level re-definition: every scenario gets the new support
+            e.f.suppset(*_supp(rso, z, name, 0))
+        elif name == 'lexpe':       # one more expectation constraint, event level (cumulative by design)
+            e.f[1].exptset(rso.E(z)[0] - rso.E(z)[1] <= 0.0625)
         elif name == 'lexp':        # one more (tighter) expectation constraint
             e.f.exptset(rso.E(z) <= 0.0625, rso.E(z) >= -0.0625)
-        elif name == 'lprob':       # the probability set is re-defined
-            e.f.probset(m.p <= np.array([0.5, 0.875]))
+        elif name in ('lprob', 'lprob0'):     # the probability set is re-defined / reset with no arguments
+            e.f.probset(*_prob(m.p, name))
         else:
             raise ValueError(name)
     e.declared.append(name)
@@ -202,11 +260,12 @@ def fresh(fe, declared, sym):
     """Observation of `sym` on a fresh canonical build of the declared set."""
     order = RO_DECL if fe == 'ro' else DRO_DECL
     names = tuple(n for n in order if n in declared)
-    key = (fe, names, sym)
+    slots = final_slots(fe, declared)
+    key = (fe, names, tuple(sorted(slots.items())), sym)
     if key in _FRESH:
         return _FRESH[key]
     try:
-        e = base(fe, late_first='late' in names)
+        e = base(fe, late_first='late' in names, slots=slots)
         for n in names:
             declare(e, n)
         obs = apply_op(e, sym)
@@ -378,7 +437,8 @@ def state_key(e):
                 ro.pupdate, ro.dupdate, ro.primal is not None, ro.dual is not None,
                 rc.pupdate, rc.dupdate, rc.primal is not None, rc.dual is not None,
                 m.var_ev_list is not None, e.f.update, e.f.mix_model is not None)
-    return (tuple(sorted(e.declared)), impl, min(e.reform, 3), e.soc, e.solved is not None)
+    return (tuple(sorted(e.declared)), tuple(sorted(final_slots(e.fe, e.declared).items())), impl, min(e.reform, 3),
+            e.soc, e.solved is not None)
 
 
 def _step(e, sym):
@@ -426,6 +486,8 @@ def run_graph(case):
         for env, path in frontier:
             for sym in alphabet:
                 if sym.startswith('st:') and sym[3:] in env.declared:
+                    continue
+                if sym.startswith('st:') and REQUIRES.get(sym[3:]) and REQUIRES[sym[3:]] not in env.declared:
                     continue
                 e2 = copy.deepcopy(env)
                 bad, alive = _step(e2, sym)
